@@ -7,7 +7,7 @@ use std::collections::BTreeMap;
 
 use frost_core::keys::repairable;
 use frost_core::keys::KeyPackage;
-use frost_core::Identifier;
+use frost_core::{self as frost, Identifier};
 use serde_json::json;
 
 use crate::dispatch;
@@ -38,7 +38,7 @@ pub fn prop() -> Prop {
         stub: &["transport", "store", "glue", "random source"],
         independent: &["harness Lagrange interpolation at the repaired identifier"],
         ref_sample: |_| 0,
-        required_probes: &["repair_existing", "repair_new_identifier", "helpers_gt_t", "helpers_eq_t", "helpers_all_others", "keys_from_dkg", "signed_with_repaired", "refusals_checked", "reordered_arrival", "repair_after_refresh"],
+        required_probes: &["repair_existing", "repair_new_identifier", "helpers_gt_t", "helpers_eq_t", "helpers_all_others", "keys_from_dkg", "signed_with_repaired", "refusals_checked", "reordered_arrival", "repair_after_refresh", "direct_repair"],
         prepare: None,
     }
 }
@@ -265,6 +265,50 @@ fn exec_c<C: Suite>(scen: &Scenario) -> Exec {
             if shares.contains_key(&target_id) {
                 rep.probe("signed_with_repaired");
             }
+        }
+    }
+    // the same repair once more by direct calls (the suite crate's own entry points), against the current public key package
+    // and against a legacy one that records no threshold (pre-3.0 encodings decode to this): whatever part 3 returns must
+    // carry the share f(target) AND the group's threshold - or it refuses
+    {
+        let hid: Vec<Identifier<C>> = helpers.iter().map(|h| sim.ids[*h]).collect();
+        let mut deltas_for: BTreeMap<Identifier<C>, Vec<repairable::Delta<C>>> = BTreeMap::new();
+        for (x, h) in helpers.iter().enumerate() {
+            let mut rng = SimRng::good(stream(scen.seed, scen.run, &format!("c11/direct/{x}")));
+            match C::w_repair1(&hid, &all_kps[h], &mut rng, target_id) {
+                Ok(ds) => {
+                    for (to, d) in ds {
+                        deltas_for.entry(to).or_default().push(d);
+                    }
+                }
+                Err(e) => return Exec::Violation(viol("C11.control_failed", format!("direct part1 of helper {h} failed: {e:?}")), rep),
+            }
+        }
+        {
+            let sigmas: Vec<repairable::Sigma<C>> = hid.iter().map(|h| C::w_repair2(deltas_for.get(h).map(|v| v.as_slice()).unwrap_or(&[]))).collect();
+            let legacy = frost::keys::PublicKeyPackage::<C>::new(pk.verifying_shares().clone(), *pk.verifying_key(), None);
+            for (name, pkx, must_succeed) in [("current", pk.clone(), true), ("legacy (no recorded threshold)", legacy, false)] {
+                rep.evaluations += 1;
+                match C::w_repair3(&sigmas, target_id, &pkx) {
+                    Err(e) if must_succeed => return Exec::Violation(viol("C11.control_failed", format!("direct part3 against the {name} public key package failed: {e:?}")), rep),
+                    Err(_) => rep.probe("legacy_pk_refused"),
+                    Ok(k2) => {
+                        if share_scalar::<C>(k2.signing_share()) != expect {
+                            return Exec::Violation(viol("C11.repaired_share_wrong", format!("direct repair against the {name} public key package: share != f(target)")), rep);
+                        }
+                        if *k2.min_signers() as usize != t {
+                            return Exec::Violation(viol("C11.threshold_wrong", format!("direct repair against the {name} public key package with {} helpers records threshold {}, t = {t}", helpers.len(), k2.min_signers())), rep);
+                        }
+                        if k2.verifying_key() != pk.verifying_key() || vshare_element::<C>(k2.verifying_share()) != base::<C>(expect) {
+                            return Exec::Violation(viol("C11.verifying_share_wrong", format!("direct repair against the {name} public key package: verifying share / group key do not match")), rep);
+                        }
+                        if !must_succeed {
+                            rep.probe("legacy_pk_repaired");
+                        }
+                    }
+                }
+            }
+            rep.probe("direct_repair");
         }
     }
     // refusals (direct calls with a helper's real key package)
